@@ -46,9 +46,13 @@ macro_rules! unroll32 {
 
 /// Fill `buf` with the index signal starting at global position `pos`.
 pub fn fill_line<T: Sample>(buf: &mut [T], pos: usize) {
-    assert!(buf.len() <= 32);
+    assert!(buf.len() <= 64);
     let n = buf.len();
     unroll32!(i, n, { buf[i] = T::coerce(BASE + pos + i); });
+    if n > 32 {
+        let m = n - 32;
+        unroll32!(i, m, { buf[32 + i] = T::coerce(BASE + pos + 32 + i); });
+    }
 }
 
 /// One single-channel `process_into_buffer` call. `s_in`/`s_out` are the
